@@ -208,7 +208,7 @@ func TestHealthyNoDuplicates(t *testing.T) {
 					// classify the regime: a later-positioned instance waits position x peer_timeout between freezing
 					// its batch and consulting the log; if the group is flushed more often than that, position 0 can
 					// report a CHANGED state in between, and the stale batch then looks new against the newer entry
-					notDelivered, degenerate, neverBroadcast := false, false, false
+					notDelivered, degenerate, neverBroadcast, neverArrived := false, false, false, false
 					if det, ok := v.Detail.(map[string]any); ok {
 						// both known findings are about WHEN a broadcast entry arrives; a covering entry that its
 						// writer never handed to the gossip layer at all is neither
@@ -253,7 +253,16 @@ func TestHealthyNoDuplicates(t *testing.T) {
 								from = ready
 							}
 							waited := cur0["start_ns"].(int64)-from >= int64(time.Duration(pos)*cs.PeerTimeout)-int64(time.Millisecond)
-							notDelivered = !delivered && waited
+							// ... and only an entry that was still on its way: sent no longer ago than gossip needs from its
+							// writer to this instance (two hops when a third instance has to relay it; two full-state periods
+							// when per-entry gossip is lossy). An entry sent long before and still not there was lost, not late.
+							onItsWay := 2*cs.Delay + time.Millisecond
+							if cs.Loss > 0 {
+								onItsWay += 2 * cs.FullState
+							}
+							inFlight := cur0["start_ns"].(int64)-prev0["end_ns"].(int64) <= int64(onItsWay)
+							notDelivered = !delivered && waited && inFlight
+							neverArrived = !delivered && waited && !inFlight
 						}
 						if cur, ok := det["current"].(map[string]any); ok {
 							if ep := res.Epochs[0]; ep != nil {
@@ -268,6 +277,8 @@ func TestHealthyNoDuplicates(t *testing.T) {
 					switch {
 					case neverBroadcast:
 						sig += "[the covering log entry was never broadcast by the instance that sent it]"
+					case neverArrived && !degenerate:
+						sig += "[the covering log entry, sent long before, never reached the later instance]"
 					case degenerate:
 						sig += "[group_interval not longer than the cluster wait of the last position]"
 					case notDelivered:
